@@ -136,6 +136,13 @@ inline void validate(scalar x) {
     if (!concrete()) symx::validate_nf(x);
 #endif
 }
+// under the stated precondition no division performed so far on this path has a zero divisor (breakdown would silently make the
+// path "infeasible" for the other obligations).  Concrete modes: a breakdown shows up as a non-finite / failing result anyway.
+inline void no_breakdown(const std::string &name, const F &pre) {
+#ifdef HX_SYM
+    if (!concrete()) symx::s_no_breakdown(name,pre);
+#endif
+}
 inline void prove_eq(const std::string &name, scalar a, scalar b) { validate(a); validate(b); observe(name+".lhs",a); observe(name+".rhs",b); prove(name,eq(a,b)); }
 template<class VA, class VB> inline void prove_eq_vec(const std::string &name, const VA &a, const VB &b) {
     if (a.size()!=b.size()) { require(name+" sizes", false, "size mismatch"); return; }
@@ -186,7 +193,9 @@ template<class Body> inline void run_case(const std::string &name, Body body, co
 }
 
 inline void parse_args(int argc, char **argv) { Args &a=args();
+#ifndef __SANITIZE_ADDRESS__
     { struct rlimit rl; rl.rlim_cur=rl.rlim_max=(rlim_t)6<<30; setrlimit(RLIMIT_AS,&rl); }
+#endif
     for (int i=1;i<argc;++i) { std::string k=argv[i]; auto nxt=[&]() { if (i+1>=argc) { std::cerr<<"missing value for "<<k<<"\n"; exit(2); } return std::string(argv[++i]); };
         if (k=="--tier") a.tier=nxt(); else if (k=="--seed") a.seed=atol(nxt().c_str()); else if (k=="--shard") { std::string s=nxt(); a.shard_i=atoi(s.c_str()); a.shard_n=atoi(s.substr(s.find('/')+1).c_str()); }
         else if (k=="--mode") a.mode=nxt(); else if (k=="--out") a.out=nxt(); else if (k=="--case") a.only_case=nxt(); else if (k=="--list") a.list=true;
